@@ -13,6 +13,7 @@ from sim import toolkit
 from sim import refcodec as rc
 from engines.um_model import Monitor, KNOWN_VERBS, P_NS, HYPER
 from engines import um_race
+from engines import um_trxcon
 
 FREQ_POOLS = [
 	[890000, 890200, 935000, 935200],
@@ -518,6 +519,7 @@ class World:
 		self.env_log = []
 		self.saved = []
 		self.app = None
+		self.trxcon = None
 		self.rx_if = None
 		self.faults = {}
 
@@ -602,6 +604,9 @@ class World:
 			return orig_start()
 		gen.start = start
 		self.binds_at_init = list(net.binds)
+		if cfg.get("trxcon"):
+			self.trxcon = um_trxcon.TrxconL1(self, trx[cfg["trxcon"]["trx"]])
+			net.tx_hook = self.on_trx_tx
 		if cfg.get("mode") == "fine":
 			sim.enable_line_preemption(um_race.TRACE_FILES)
 		# the socket thread
@@ -636,6 +641,16 @@ class World:
 			else:
 				net.deliver(port, data, src)
 
+	def on_trx_tx(self, sock, data, dst):
+		"""Datagrams fake_trx sends towards the L1 that is a real trxcon."""
+		tc = self.trxcon
+		if tc is None:
+			return
+		if dst[1] == tc.ctrl_local:
+			tc.rx("ctrl", data)
+		elif dst[1] == tc.data_local:
+			tc.rx("data", data)
+
 	def do_op(self, op):
 		trx = self.cfg["trx"]
 		o = op["op"]
@@ -643,6 +658,14 @@ class World:
 			return
 		if o == "parse":
 			self.do_parse(op)
+			return
+		if o == "tcmd":
+			if self.trxcon is not None:
+				self.trxcon.do_cmd(op["line"])
+			return
+		if o == "tburst":
+			if self.trxcon is not None:
+				self.trxcon.do_burst(op, self.cur_fn)
 			return
 		t = trx[op["trx"] % len(trx)]
 		if o == "cmd":
@@ -707,6 +730,8 @@ class World:
 	def run_ops(self):
 		sim = self.sim
 		ops = self.plan["ops"]
+		if self.trxcon is not None:
+			self.trxcon.open()
 		t = 0
 		for op in ops:
 			t += max(0, int(op.get("dt", 0)))
@@ -736,10 +761,18 @@ class UmEngine:
 	def setup(self):
 		for m in ("fake_trx", "clck_gen", "transceiver", "ctrl_if", "udp_link", "fake_pm", "data_if", "burst_fwd"):
 			toolkit.tk(m)
+		um_trxcon.setup()
 
 	def generate(self, seed, prop, tier):
 		share = {"C03": 0.55, "C12": 0.2, "C05": 0.15}.get(prop, 0.0)
-		if share and rng_for(seed, "profile").random() < share:
+		tshare = {"C05": 0.15, "C10": 0.05}.get(prop, 0.0)
+		pr = rng_for(seed, "profile").random()
+		if tshare and share <= pr < share + tshare:
+			# the real trx_if.c (trxcon) is the MS-side L1 of this run
+			plan = um_trxcon.build_trxcon_plan(rng_for(seed, "plan"), tier)
+			plan["seed"] = seed
+			return plan
+		if share and pr < share:
 			plan = um_race.build_race_plan(rng_for(seed, "plan"), tier)
 			plan["seed"] = seed
 			return plan
@@ -799,10 +832,18 @@ class UmEngine:
 		if log_points:
 			sim.point_log = []
 		toolkit.capture_logs(lambda lvl, fn, msg: sim.record("log", level=lvl, file=fn, msg=msg))
+		w.init_error = None
+		stuck = []
 		try:
-			w.build()
-			w.run_ops()
-			stuck = [b for b in sim.blocked_threads() if b[1] and b[1][0] == "lock"]
+			try:
+				w.build()
+			except HarnessError:
+				raise
+			except Exception as e:  # the application could not even be constructed
+				w.init_error = "%s: %s" % (type(e).__name__, e)
+			if w.init_error is None:
+				w.run_ops()
+				stuck = [b for b in sim.blocked_threads() if b[1] and b[1][0] == "lock"]
 		finally:
 			sim.abort()
 			w.restore()
@@ -820,6 +861,10 @@ class UmEngine:
 			srng = rng_for(seed, "sched")
 			picks = [srng.randrange(2) for _ in range(64)]
 			w0, _ = self._run_world(plan, Policy(picks=picks), log_points=True)
+			if w0.init_error:
+				res.violations = [{"clause": "ports.bind-plan", "detail": {"init_exception": w0.init_error}, "owners": ["C12"]}]
+				res.digest = digest_of(res.violations)
+				return res
 			pts = w0.sim.point_log
 			L = max(1, len(pts))
 			windows = {}
@@ -835,7 +880,10 @@ class UmEngine:
 					by_loc = {}
 					for key, loc in windows[wt]:
 						by_loc.setdefault(loc, []).append(key)
-					loc = srng.choice(sorted(by_loc))
+					# lines of the modules that hold the state shared by the two threads weigh more
+					locs = sorted(by_loc)
+					wts = [3 if l.startswith(("transceiver.py", "burst_fwd.py")) else 1 for l in locs]
+					loc = srng.choices(locs, wts)[0]
 					pre.append(srng.choice(by_loc[loc]))
 			elif strat in ("pct2", "pct3"):
 				d = 2 if strat == "pct2" else 3
@@ -852,6 +900,10 @@ class UmEngine:
 			pol = Policy(picks=choices.get("picks"), preempt_at=choices.get("preempt_at"))
 		w, stuck = self._run_world(plan, pol)
 		sim = w.sim
+		if w.init_error:
+			res.violations = [{"clause": "ports.bind-plan", "detail": {"init_exception": w.init_error}, "owners": ["C12"]}]
+			res.digest = digest_of(res.violations)
+			return res
 		viols, stats = um_race.check_race(sim.history, plan["config"])
 		if stuck:
 			viols.insert(0, {"clause": "C03.deadlock", "detail": {"blocked": str(stuck)[:200]}, "owners": ["C03", "C05", "C12"]})
@@ -900,6 +952,8 @@ class UmEngine:
 				mon.feed(ev)
 			dead = [d for d in sim.deaths]
 			viols = mon.finish(sim.now, dead)
+			if w.trxcon is not None:
+				viols = w.trxcon.finish() + viols
 			for t, k, kw in sim.history:
 				if k == "toolkit-burst":
 					mon.m.probe("toolkit-generator-burst")
@@ -921,6 +975,8 @@ class UmEngine:
 			sim.abort()
 			w.restore()
 			toolkit.release_logs()
+			if w.trxcon is not None:
+				w.trxcon.close()
 		if hostile:
 			for v in viols:
 				if "C14" not in v["owners"]:
@@ -939,6 +995,9 @@ class UmEngine:
 		if w.net.stats.get("recv-truncation"):
 			res.faults["recv-truncation"] = w.net.stats["recv-truncation"]
 		res.probes = dict(mon.m.stats)
+		if w.trxcon is not None:
+			res.probes.update(w.trxcon.stats)
+			res.probes["trxcon-session"] = 1
 		res.probes["ticks"] = w.ticks
 		res.digest = digest_of(sim.history)
 		res.choices = {"picks": pol.picks_out, "preempt_at": pol.preempted_out}
